@@ -142,7 +142,9 @@ type doc struct {
 
 // parseDoc walks the bytes with encoding/xml (strict mode: well-formedness, nesting, namespaces) and
 // builds the element tree with byte offsets.
-func parseDoc(in []byte) (*doc, error) {
+// innerDeclOK: the caller's own argument contains "<?xml" (a declaration forwarded verbatim inside the
+// rpc is then the caller's content, not the library's doing).
+func parseDoc(in []byte, innerDeclOK bool) (*doc, error) {
 	d := xml.NewDecoder(bytes.NewReader(in))
 	dc := &doc{}
 	var stack []*node
@@ -165,9 +167,12 @@ func parseDoc(in []byte) (*doc, error) {
 					return nil, fmt.Errorf("%w: XML declaration at offset %d, after a complete root element", errMultiRoot, b)
 				}
 				if !first || b != 0 {
-					return nil, fmt.Errorf("XML declaration at offset %d, not at the start", b)
+					if !innerDeclOK {
+						return nil, fmt.Errorf("XML declaration at offset %d, not at the start", b)
+					}
+				} else {
+					dc.declEnd = e
 				}
-				dc.declEnd = e
 			} else if len(stack) == 0 {
 				return nil, fmt.Errorf("processing instruction %q outside the root element", x.Target)
 			}
@@ -239,7 +244,7 @@ func checkDS(in []byte, w *node, wname, ds, op string, force bool) *complaint {
 func checkStructure(in []byte, rq Req, header, force bool) (id int, c *complaint) {
 	verbatim := !force
 	op := opOf(rq.Shape)
-	dc, err := parseDoc(in)
+	dc, err := parseDoc(in, strings.Contains(rq.Arg.Str(), "<?xml"))
 	if err != nil {
 		if errors.Is(err, errMultiRoot) {
 			return 0, bad("c03/xml:more-than-one-rpc-in-message", "%v: %s", err, clip(in))
@@ -548,7 +553,7 @@ func checkRewrite(unforced, forced []byte) (rewritten, kept int, c *complaint) {
 		t := toks[i]
 		d := pos + firstDiff(F[imin(pos, len(F)):], U[t.b:])
 		wf := "forced output is well-formed"
-		if _, err := parseDoc(F); err != nil {
+		if _, err := parseDoc(F, true); err != nil {
 			wf = "forced output is NOT well-formed XML (" + err.Error() + ")"
 		}
 		return bad("c03/self-closing-rewrite:"+what,
